@@ -520,3 +520,27 @@ Example C12_names_model_is_source_nonvacuous :
   end.
 Proof. cbv zeta. split; [discriminate|]. split; [repeat constructor; cbn; intuition discriminate|vm_compute; split; reflexivity]. Qed.
 Print Assumptions C12_names_model_is_source.
+
+(** ---- source tie: set_atom_names_atomistic(molecule) WITHOUT a coarse graph (the sampler's call; the generated
+    function is the source translated at meta_graph=None).  The model names element ++ str(position in the group); the
+    source runs the same named/used/shared bookkeeping as with a coarse graph, which is inert here because every atom has
+    ONE fragid entry and lies in one group.  Hypotheses: distinct node keys; a 'fragid' value is not a str or dict and a
+    one-element value holds an int or something unhashable (SourceTie.nometa_fragid_ok: 'a', ['x'], [None], {0: 1} are
+    named by the source, the model answers TypeError). *)
+Theorem C12_names_nometa_model_is_source : forall mol, NoDup (node_keys mol) -> SourceTie.nometa_modelled mol ->
+  GraphUtilsGen.gen_set_atom_names_atomistic_nometa mol = GraphOps.set_atom_names_nometa mol.
+Proof. exact SourceTie.names_nometa_is_source. Qed.
+Example C12_names_nometa_model_is_source_nonvacuous :
+  let mol := add_node (add_node (add_node gempty 0 [(S "element", VStr (S "C")); (S "fragid", VList [VInt 0])])
+                                1 [(S "element", VStr (S "O")); (S "fragid", VList [VInt 1])])
+                      2 [(S "element", VStr (S "C")); (S "fragid", VList [VInt 0])] in
+  NoDup (node_keys mol) /\ SourceTie.nometa_modelled mol /\
+  match GraphOps.set_atom_names_nometa mol with
+  | Ok m => map (fun k => node_get m k (S "atomname")) [0; 1; 2] = [Some (VStr (S "C0")); Some (VStr (S "O0")); Some (VStr (S "C1"))]
+  | Err _ => False
+  end.
+Proof.
+  cbv zeta. split; [repeat constructor; cbn; intuition discriminate|]. split; [|vm_compute; reflexivity].
+  unfold SourceTie.nometa_modelled, SourceTie.all_na. repeat (constructor; [cbn; left; eexists; reflexivity|]). constructor.
+Qed.
+Print Assumptions C12_names_nometa_model_is_source.
